@@ -191,7 +191,8 @@ type Cluster struct {
 	auth       []AuthEvent
 	memberSeq  int
 	// MetadataServed journals every metadata response body with its sequence number.
-	closed bool
+	closed     bool
+	hiddenAPIs map[int16]bool // not listed by ApiVersions, served all the same
 }
 
 // DefaultVersions advertises every pinned API at its full range.
@@ -261,6 +262,17 @@ func (c *Cluster) SetVersions(broker int32, api int16, min, max int16) {
 			b.Versions[api] = [2]int16{min, max}
 		}
 	}
+}
+
+// HideFromApiVersions leaves an API out of every broker's ApiVersions answer while the brokers go on serving it (what an
+// old broker or a proxy in front of the cluster may do).
+func (c *Cluster) HideFromApiVersions(api int16) {
+	c.mu.Lock()
+	defer c.mu.Unlock()
+	if c.hiddenAPIs == nil {
+		c.hiddenAPIs = map[int16]bool{}
+	}
+	c.hiddenAPIs[api] = true
 }
 
 // SetHook installs the fault hook.
